@@ -42,9 +42,13 @@ type schedulePoint struct {
 }
 
 func tryReplay(eng *Engine, prop string, l *logical, seed int) (bool, map[string]interface{}) {
-	verif := "/verif"
-	if exe, err := os.Executable(); err == nil {
-		verif = filepath.Dir(filepath.Dir(exe))
+	// the templates of the --verif directory in use; the directory of the installed binary is the fallback
+	verif := eng.verifDir
+	if _, err := os.Stat(filepath.Join(verif, "replay", "templates.json")); err != nil {
+		verif = "/verif"
+		if exe, err := os.Executable(); err == nil {
+			verif = filepath.Dir(filepath.Dir(exe))
+		}
 	}
 	data, err := os.ReadFile(filepath.Join(verif, "replay", "templates.json"))
 	if err != nil {
@@ -70,6 +74,10 @@ func tryReplay(eng *Engine, prop string, l *logical, seed int) (bool, map[string
 			ok, out = c.ok, c.out
 		} else {
 			ok, out = runReplay(eng.repoDir, filepath.Join(verif, "replay", t.File), t.Test, t.Pkg, seed, t.Schedule)
+			if !ok && !strings.Contains(out, "--- PASS") && !strings.Contains(out, "--- FAIL") && !strings.Contains(out, "\nok ") {
+				// no verdict (the machine is busy: build or test ran into the time limit): once more
+				ok, out = runReplay(eng.repoDir, filepath.Join(verif, "replay", t.File), t.Test, t.Pkg, seed, t.Schedule)
+			}
 			if !ok && t.FailConfirms {
 				// the test name may be a regular expression covering several demonstration tests
 				if re, err := regexp.Compile("--- FAIL: (" + t.Test + ")"); err == nil && re.MatchString(out) {
@@ -150,10 +158,12 @@ func runReplay(repo, src, test, pkg string, seed int, sched []schedulePoint) (bo
 	cmd.Env = append(os.Environ(), "GOFLAGS=-mod=readonly", "GOPROXY=off", "GOSUMDB=off", "GOTOOLCHAIN=local", fmt.Sprintf("VERIF_SEED=%d", seed))
 	out, _ := cmd.CombinedOutput()
 	s := string(out)
-	if len(s) > 6000 {
-		s = s[:6000] + "...[truncated]"
+	confirmed := strings.Contains(s, "REPLAY-CONFIRMED")
+	if len(s) > 8000 {
+		// keep both ends: the verdict lines of a test with sub-tests come last
+		s = s[:4000] + "\n...[truncated]...\n" + s[len(s)-4000:]
 	}
-	return strings.Contains(s, "REPLAY-CONFIRMED"), s
+	return confirmed, s
 }
 
 type replayOutcome struct {
